@@ -6,7 +6,7 @@ V = os.path.dirname(os.path.dirname(os.path.abspath(__file__)))
 sys.path.insert(0, V)
 from vlib.model import read_sources, Program
 from selftest import runner
-src = read_sources("/repo")
+src = read_sources(os.environ.get("REPO_ROOT", "/repo"))
 if sys.argv[1] != "-":
     src = runner.apply_unified_diff(src, open(sys.argv[1]).read())
 prog = Program(src)
